@@ -75,7 +75,7 @@ def run(chk):
     W = world()
     p = W.p
     from . import formulas
-    formulas.loop_accumulator_updates(chk, p, "C07", "R07.7")
+    formulas.deferred(chk, formulas.loop_accumulator_updates, p, "C07", "R07.7")
     M = ModP(p, "PointJacobi")
     from . import identity
     from .c06 import identity_operand_rule
